@@ -252,9 +252,9 @@ def uriKeep (L : Lists) (v : Str) : Except PyErr Bool :=
 
 def akey (a : Attr) : Key := (a.ns, a.name)
 
-/-- `token["name"] in self.svg_allow_local_href`: the left operand is a `str`, the set holds
-`(namespace, name)` tuples, so the test is False for every configuration of that shape. -/
-def strInKeys (_name : Str) (_keys : List Key) : Bool := false
+/-- `(None, token["name"]) in self.svg_allow_local_href` (since fix COMMIT_A; before it the left operand was the bare
+`str`, which is never a member of a set of `(namespace, name)` tuples).  The token's own namespace plays no role. -/
+def nameInKeys (name : Str) (keys : List Key) : Bool := keys.elem (none, name)
 
 def styleKey : Key := (none, [115, 116, 121, 108, 101])
 def xlinkHref : Key := (some H5.Gen.San.xlinkNs, [104, 114, 101, 102])
@@ -284,6 +284,9 @@ def keptDecls (L : Lists) (decls : List (Str × Str)) : Except PyErr (List (Str 
 /-- `Filter.sanitize_css` -/
 def sanitizeCss (L : Lists) (style : Str) : Except PyErr Str := do
   let style ← sub cl H5.Gen.San.reCssUrl [32] style
+  match ← search cl H5.Gen.San.reCssUrlGuard style with   -- `if re.search(r'url\s*\(', style, re.I): return ''` (fix COMMIT_B)
+  | some _ => pure []
+  | none =>
   match ← matchAt cl H5.Gen.San.reGauntlet1 style with
   | none => pure []
   | some _ =>
@@ -310,9 +313,11 @@ def stepSvgRef (L : Lists) (attrs : List Attr) : Except PyErr (List Attr) :=
       pure { a with value := v }
     else pure a) attrs
 
-/-- the `svg_allow_local_href` rule (dead: see `strInKeys`) -/
+/-- the `svg_allow_local_href` rule: `if (None, token["name"]) in self.svg_allow_local_href and (xlink, 'href') in attrs
+and re.search(r'^\s*[^#\s].*', attrs[(xlink, 'href')]): del attrs[(xlink, 'href')]`.  `attrs` is a dict: `find?` is the
+lookup, the `filter` is the `del`. -/
 def stepLocalHref (L : Lists) (name : Str) (attrs : List Attr) : Except PyErr (List Attr) :=
-  if strInKeys name L.svgAllowLocalHref then
+  if nameInKeys name L.svgAllowLocalHref then
     match attrs.find? (fun a => akey a = xlinkHref) with
     | some a => do
       let m ← search cl H5.Gen.San.reLocalHref a.value
